@@ -44,7 +44,7 @@ Section Choice.
   Definition assert_probs (eps64 epsp : T) (p : list T) (n_items : Z) : res unit :=
     let atol := rc_atol1 N (rc_atol0 N eps64) epsp in
     if rc_size_bad (zlen p) n_items then Err ValueError else
-    if existsb (rc_neg N) p then Err ValueError else
+    if negb (forallb (rc_nonneg N) p) then Err ValueError else
     if rc_sum_bad N (nsum N p) atol then Err ValueError else Ok tt.
 
   (* self._cdf = np.cumsum(p); self._cdf /= self._cdf[-1] *)
@@ -196,6 +196,9 @@ Section Machine.
 
   (* RandomChoice.__call__ as seen by the machine: one request random(size) *)
   Definition rc_draw (r : rss) (size : Z) : val * rss := rss_draw r (RRandom (rc_draw_size size)).
+  (* successive calls of a RandomChoice with the sizes of the list *)
+  Fixpoint rc_draws (ks : list Z) (r : rss) : rss :=
+    match ks with [] => r | k :: rest => rc_draws rest (snd (rc_draw r k)) end.
 
   (* MCDataSamplingBkgGenMethod.generate_events (no pre-selection method): the
      requests it makes on the service it is handed, in the order of the code:
@@ -210,6 +213,43 @@ Section Machine.
     if scramble
     then let '(_, r3) := rss_draw r2 (RUniform (scr_size n_bkg)) in (n_bkg, r3)
     else (n_bkg, r2).
+
+  (* MCMultiDatasetSignalGenerator.generate_signal_events: poisson(mean) only when
+     `poisson`, one weighted choice of n_signal candidates, then for every
+     (dataset, source-hypothesis-group) with invalid events the re-draw loop of
+     _draw_valid_sig_events_for_dataset_and_shg: while n < n_signal draw
+     n_signal - n further candidates.  What the drawn candidates imply is an
+     oracle: the numbers of invalid events per group (in processing order) of
+     the first choice, and the number of valid events of group g in a re-draw.
+     The loop has no bound in the code: it carries fuel, OutOfFuel = the loop
+     did not finish within `fuel` iterations. *)
+  Variable sig_groups : val -> list Z.
+  Variable sig_valid : Z -> val -> Z.
+
+  Fixpoint redraw_loop (fuel : nat) (g n n_signal : Z) (r : rss) : res rss :=
+    if sig_redraw_cond n n_signal then
+      match fuel with
+      | O => Err OutOfFuel
+      | S f => let '(v, r1) := rc_draw r (sig_redraw_size n_signal n) in
+               redraw_loop f g (n + sig_valid g v) n_signal r1
+      end
+    else Ok r.
+
+  Fixpoint redraw_groups (fuel : nat) (g : Z) (nreds : list Z) (r : rss) : res rss :=
+    match nreds with
+    | [] => Ok r
+    | nred :: rest =>
+        do r1 <- (if sig_redraw_need nred then redraw_loop fuel g 0 nred r else Ok r);
+        redraw_groups fuel (g + 1) rest r1
+    end.
+
+  Definition sig_mc (fuel : nat) (poisson : bool) (mean : Z) (r : rss) : res (Z * rss) :=
+    let '(n, r1) := if sig_poisson poisson
+                    then let '(v, r1) := rss_draw r (RPoisson 1) in (val_int v, r1)
+                    else (mean, r) in
+    let '(v, r2) := rc_draw r1 (sig_choice_size n) in
+    do r3 <- redraw_groups fuel 0 (sig_groups v) r2;
+    Ok (n, r3).
 
   (* ---------------- parallelize: rss_list ---------------- *)
   Fixpoint worker_seeds (k : nat) (r : rss) : list Z * rss :=
@@ -294,6 +334,17 @@ Section Machine.
     do r' <- py_get s2 0;
     do m' <- py_get s2 1;
     Ok (d, trial_rec_seed (rs_seed r'), fit, r', m').
+  (* do_trial(rss, minimizer_rss=rss): the caller hands the SAME service object
+     for both roles - one object, both names are bound to it *)
+  Definition do_trial_aliased (r : rss) (maxrep nfloat : Z) : res (data * Z * res Z * rss) :=
+    let s0 := [r] in
+    let obj := fun (_ : Z) => 0 in
+    do ds <- gen_pseudo s0 (obj (trial_gen_rss 0));
+    let '(d, s1) := ds in
+    do fs <- minimize s1 (obj (max_min_rss (fit_max_rss (trial_fit_rss 1)))) maxrep nfloat;
+    let '(fit, s2) := fs in
+    do r' <- py_get s2 0;
+    Ok (d, trial_rec_seed (rs_seed r'), fit, r').
 End Machine.
 
 Arguments rs_seed {rng} _.
